@@ -1246,9 +1246,15 @@ def judge(e, P, memo, api=None):
             from bempp_cl.api.assembly.discrete_boundary_operator import _DiscreteOperatorBase
             d = v if isinstance(v, _DiscreteOperatorBase) else v.weak_form()
             X = np.column_stack([probe(sv.M.shape[1]), np.real(probe(sv.M.shape[1])) * 2])
-            cmp(np.asarray(d @ X), sv.M @ X, "matmat vs NumPy expression")
+            try:
+                cmp(np.asarray(d @ X), sv.M @ X, "matmat vs NumPy expression")
+            except Exception as ex_:  # noqa  a well-typed discrete operator must accept an (n, k) array
+                bad = bad or f"matmat with an (n, 2) array raises {type(ex_).__name__}: {str(ex_)[:120]}"
             xr = np.real(probe(sv.M.shape[1]))
-            cmp(np.asarray(d @ xr).reshape(-1), sv.M @ xr, "matvec on a real vector vs NumPy expression")
+            try:
+                cmp(np.asarray(d @ xr).reshape(-1), sv.M @ xr, "matvec on a real vector vs NumPy expression")
+            except Exception as ex_:  # noqa
+                bad = bad or f"matvec with a real vector raises {type(ex_).__name__}: {str(ex_)[:120]}"
     elif sv.kind == "G":
         if obs[0] != "fn":
             bad = f"result kind {obs[0]}"
